@@ -206,6 +206,11 @@ impl Expr {
             return true;
         }
 
+        // the result of an arithmetic operation is a number, whichever side the column is on
+        if expr.arithmetic_op.is_some() {
+            return true;
+        }
+
         match expr.left {
             Some(ref left) => Self::contains_numeric_field(left),
             None => false,
